@@ -46,6 +46,25 @@ def make_theta(kind, rng, table="full", lut=None, weird=True):
     return SparseDrugComboInteractionMCMCSample(W=_weird(rng, (NS, D)), V2=_weird(rng, (NT, D)), precision=float(abs(rng.normal()) + 0.1), single_effect_lookup=lut)
 
 
+def near_copy(th, rng, mode):
+    """a sample that differs from `th` only slightly - a slowly mixing chain (one ulp / 1e-9 in a few entries) - or only in values far below
+    any tolerance (all entries of one array tiny or denormal): still a different sample, to be stored and returned as such"""
+    d = {k: (np.array(v, dtype=float, copy=True) if isinstance(v, np.ndarray) else v) for k, v in th.private_parameters_dict().items() if k != "single_effect_lookup"}
+    arrs = sorted(k for k, v in d.items() if isinstance(v, np.ndarray) and v.size)
+    k = arrs[int(rng.integers(len(arrs)))]
+    if mode == "ulp":
+        flat = d[k].reshape(-1)
+        j = int(rng.integers(flat.size))
+        flat[j] = np.nextafter(flat[j], np.inf)
+    elif mode == "nano":
+        d[k] = d[k] + 1e-9 * (1 + np.arange(d[k].size).reshape(d[k].shape))
+    else:       # "tiny": the whole array far below 1e-8, different from the previous tiny one
+        d[k] = (rng.random(d[k].shape) + 0.5) * (5e-324 if rng.random() < 0.5 else 1e-12)
+    if isinstance(th, SparseDrugComboMCMCSample):
+        return SparseDrugComboMCMCSample(W=d["W"], W0=d["W0"], V2=d["V2"], V1=d["V1"], V0=d["V0"], alpha=float(d["alpha"]), precision=float(d["precision"]))
+    return SparseDrugComboInteractionMCMCSample(W=d["W"], V2=d["V2"], precision=float(d["precision"]), single_effect_lookup=th.single_effect_lookup)
+
+
 def digest(th):
     h = hashlib.sha1(type(th).__name__.encode())
     d = dict(th.private_parameters_dict())
@@ -96,7 +115,14 @@ class TWorld:
         if op == "new":
             self.mem[e["h"]] = ThetaHolder(n_thetas=e["cap"])
         elif op == "add":
-            th = make_theta(self.kind, self.rng, self.table, lut=self.lut)
+            prev = self.mem[e["h"]].thetas[-1] if self.mem[e["h"]] is not None and len(self.mem[e["h"]].thetas) else None
+            u = self.rng.random()
+            if prev is not None and u < 0.45:
+                th = near_copy(prev, self.rng, "ulp" if u < 0.15 else "nano" if u < 0.3 else "tiny")
+                if digest(th) == digest(prev):
+                    th = make_theta(self.kind, self.rng, self.table, lut=self.lut)
+            else:
+                th = make_theta(self.kind, self.rng, self.table, lut=self.lut)
             st, r = outcome(self.mem[e["h"]].add_theta, th)
             if st == "ok":
                 self.tok[digest(th)] = e["h"] * 100 + len(self.events)
